@@ -1,8 +1,8 @@
 package main
 
 import (
-	"go/ast"
 	"fmt"
+	"go/ast"
 	"go/types"
 	"strings"
 
@@ -53,7 +53,6 @@ func runC06(c *Ctx) {
 		ci, ok := ev.In.(ssa.CallInstruction)
 		return ok && ci.Common().IsInvoke() && ci.Common().Method.Name() == "Update" && isNamed(ci.Common().Value.Type(), "match", "Client")
 	}
-	updatedParam := ssa.Value(param(upd, 3))
 	// ---- offers are made while the registry lock is held (so that the remove function, which takes it for
 	// writing, returns only when no offer to the removed client is still to come)
 	c.Rule("C06.offer-locked", "every Client.Update invocation in package match happens while Match.mu is held (R or W), on every path from every exported entry point that can reach one; the remove function takes the same lock for writing, so no offer follows its return")
@@ -138,36 +137,61 @@ func runC06(c *Ctx) {
 		}
 		c.Floor("C06.offer-locked/offers", nOffers, 2)
 	}
-	// ---- once: (*branch).update
+	// ---- once: evaluated from the exported UpdateOnce with the descent (one level) and any function values it is
+	// handed inlined - whichever function holds the "already offered?" test
 	{
+		c.Analysed(fnName(UpdateOnce))
 		c.Analysed(fnName(upd))
+		var setP ssa.Value
+		for _, p := range UpdateOnce.Params {
+			if _, ok := p.Type().Underlying().(*types.Map); ok {
+				setP = p
+			}
+		}
+		if setP == nil {
+			c.Unresolved("C06.once", "the per-notification set parameter of match.(*Match).UpdateOnce")
+			return
+		}
 		for _, found := range []bool{true, false} {
 			cls := func(e *PPA, st *State, rv RV) string {
 				rv = e.Resolve(st, rv)
-				if rv.V == updatedParam {
+				if rv.V == setP {
 					return "UPD"
 				}
 				if ex, ok := rv.V.(*ssa.Extract); ok && ex.Index == 1 {
-					if lk, ok := ex.Tuple.(*ssa.Lookup); ok && lk.CommaOk && e.Resolve(st, RV{rv.F, lk.X}).V == updatedParam {
+					if lk, ok := ex.Tuple.(*ssa.Lookup); ok && lk.CommaOk && e.Resolve(st, RV{rv.F, lk.X}).V == setP {
 						return "FOUND"
 					}
 				}
 				return ""
 			}
 			at := &Atoms{Class: cls, Bool: map[string]bool{"UPD": true, "FOUND": found}}
-			e := &PPA{Cond: at.Cond, MaxVisits: 3, Watch: func(ev *Ev) bool {
-				return isInvoke(ev) || (strings.HasPrefix(ev.Label, "mapupdate:") && ev.Args[0].V == updatedParam)
-			}}
-			e.Run(upd)
+			e := &PPA{Cond: at.Cond, MaxVisits: 3, NoAuto: true,
+				Inline: func(fr *Frame, call ssa.CallInstruction, callee *ssa.Function) bool {
+					if callee.Pkg == nil || callee.Pkg != UpdateOnce.Pkg {
+						return false
+					}
+					for x := fr; x != nil; x = x.Parent {
+						if x.Fn == callee {
+							return false
+						}
+					}
+					return true
+				},
+				Watch: func(ev *Ev) bool {
+					return isInvoke(ev) || (strings.HasPrefix(ev.Label, "mapupdate:") && ev.Args[0].V == setP)
+				}}
+			e.Run(UpdateOnce)
 			c.Paths += len(e.Paths)
 			c.Scen++
 			n := 0
+			sawInvoke := false
 			for i := range e.Paths {
 				p := &e.Paths[i]
 				n++
 				inv := p.Count(isInvoke)
 				if found {
-					c.Check(inv == 0, "C06.once", fnName(upd), "client already in the set is not invoked", P.Pos(upd.Pos()), fmt.Sprintf("%d invokes; path: %s", inv, p.String()))
+					c.Check(inv == 0, "C06.once", fnName(UpdateOnce), "client already in the set is not invoked", P.Pos(upd.Pos()), fmt.Sprintf("%d invokes; path: %s", inv, p.String()))
 					continue
 				}
 				ok := true
@@ -175,26 +199,46 @@ func runC06(c *Ctx) {
 					if !isInvoke(&p.Trace[j]) {
 						continue
 					}
+					sawInvoke = true
 					if j+1 >= len(p.Trace) || isInvoke(&p.Trace[j+1]) || p.Trace[j+1].Args[1] != p.Trace[j].Args[0] {
 						ok = false
 					}
 				}
-				c.Check(ok, "C06.once", fnName(upd), "invoked client is entered into the set before the next invoke", P.Pos(upd.Pos()), "path: "+p.String())
+				c.Check(ok, "C06.once", fnName(UpdateOnce), "invoked client is entered into the set before the next invoke", P.Pos(upd.Pos()), "path: "+p.String())
+			}
+			if !found {
+				c.Check(sawInvoke, "C06.once", fnName(UpdateOnce), "a client that is not in the set is offered the notification", P.Pos(upd.Pos()), "no explored path invokes a client")
 			}
 			c.Floor(fmt.Sprintf("C06.once/update-paths(found=%v)", found), n, 2)
 		}
 	}
-	// ---- once: the recursion hands the set on
+	// ---- once: the recursion hands on, unchanged, everything but the path (the set, or the function that holds it)
 	{
+		pathIdx := -1
+		for i, p := range upd.Params {
+			if ssa.Value(p) == ssa.Value(param(upd, 2)) {
+				pathIdx = i
+			}
+		}
 		n := 0
 		for _, ci := range callsIn(upd) {
 			if staticCallee(ci.Common()) != upd {
 				continue
 			}
 			n++
-			args := refArgs(ci.Common())
-			ok := len(args) == 4 && args[3] == updatedParam
-			c.Check(ok, "C06.once", fnName(upd), "recursive update hands on the per-notification set", P.Pos(ci.Pos()), "set argument: "+Expr(args[len(args)-1]))
+			args := ci.Common().Args
+			ok := len(args) == len(upd.Params)
+			bad := ""
+			for j := 1; ok && j < len(args); j++ {
+				if j == pathIdx {
+					continue
+				}
+				if args[j] != ssa.Value(upd.Params[j]) {
+					ok = false
+					bad = fmt.Sprintf("parameter %s is replaced by %s", upd.Params[j].Name(), Expr(args[j]))
+				}
+			}
+			c.Check(ok, "C06.once", fnName(upd), "recursive update hands on the per-notification set", P.Pos(ci.Pos()), bad)
 		}
 		c.Floor("C06.once/recursive-calls", n, 2)
 	}
